@@ -65,6 +65,7 @@ pub fn c38_replay() {
         let mut smoke = replay_inputs(name)[0].clone();
         smoke.a.truncate(2);
         smoke.b.truncate(2);
+        util::arm_abort_report(&prop, None, &json!({"phase": "compiling and smoke-running the simulator dylib (a crash here usually means another process replaced the freshly built dylib)", "flow": name}), 0);
         let (case, attempts) = build_case_checked(name, &smoke);
         rep.count_n("dylib_rebuilds_after_failed_smoke_run", attempts as u64 - 1);
         cases.push((name, case));
